@@ -139,7 +139,7 @@ func enumFormat(e *common.Enum) {
 		}
 	}
 	// mode flag pairs (and -v)
-	modes := [][]string{{"-i", "--check"}, {"-i", "-o", "out.txt"}, {"--check", "-o", "out.txt"}, {"-i", "-v"}, {"--check", "-v"}, {"-v"}}
+	modes := [][]string{{"-i", "--check"}, {"--check", "-i"}, {"--check", "--compact", "-i"}, {"-i", "--check", "-o", "out.txt"}, {"-i", "-o", "out.txt"}, {"--check", "-o", "out.txt"}, {"-i", "-v"}, {"--check", "-v"}, {"-v"}}
 	for _, m := range modes {
 		for _, fs := range modeSets {
 			m, fs := m, fs
@@ -403,11 +403,12 @@ func formatInline(c *common.Ctx, st []string, f file) {
 	c.Outcome("format-inline:" + v.String())
 }
 
-// formatModes: combinations of the mode flags.  Which of two modes wins is not
-// stated by the property, so only clauses that hold under either reading are
-// evaluated: a rejected input means a non-zero exit; with --check and without -i
-// nothing is modified and the verdict is the --check verdict; with -i a rejected
-// file is untouched.
+// formatModes: combinations of the mode flags.  Whether -i or -o wins is not
+// stated by the property, so for that pair only clauses that hold under either
+// reading are evaluated (a rejected input means a non-zero exit; with -i a rejected
+// file is untouched).  A run given --check is a check-only run ("--check only
+// reports"): nothing is modified and the verdict is the --check verdict, whatever
+// other mode flag accompanies it.
 func formatModes(c *common.Ctx, mode []string, files []file) {
 	sb := newSandbox()
 	defer sb.close()
@@ -425,8 +426,14 @@ func formatModes(c *common.Ctx, mode []string, files []file) {
 		return false
 	}
 	would := false
+	var style []string // style flags among the mode flags: the reference -i run uses the same ones
+	for _, m := range mode {
+		if m == "--compact" {
+			style = append(style, m)
+		}
+	}
 	for i, f := range files {
-		if vs[i] != reject && inplaceRef(nil, f.Content) != f.Content {
+		if vs[i] != reject && inplaceRef(style, f.Content) != f.Content {
 			would = true
 		}
 	}
@@ -454,13 +461,21 @@ func formatModes(c *common.Ctx, mode []string, files []file) {
 			c.Fail("check-vs-inplace:files", fmt.Sprintf("format %s exits %d; format -i changes a file: %v\n%s", strings.Join(mode, " "), r.Exit, would, d))
 		}
 	case has("--check") && has("-i"):
-		if ov == reject {
+		// --check "only reports" (CI mode): a run that was asked to check is a check-only run whatever else it was asked,
+		// so nothing is modified and the verdict is the --check verdict
+		untouched(c, sb, files, "modified-by-check-mode:format-check+i", d)
+		switch {
+		case r.TimedOut:
+			c.Fail("hang:format", d)
+		case ov == reject:
 			exitOracle(c, "format", cls, "files", ov, r, d)
+		case ov == accept && would != (r.Exit != 0):
+			c.Fail("check-vs-inplace:files", fmt.Sprintf("format %s exits %d; format -i changes a file: %v\n%s", strings.Join(mode, " "), r.Exit, would, d))
 		}
 	default:
 		exitOracle(c, "format", cls, "files", ov, r, d)
 	}
-	if has("-i") {
+	if has("-i") && !has("--check") {
 		for i, f := range files {
 			if vs[i] == reject {
 				if t := sb.touchedFile(f); t != "" {
@@ -468,7 +483,7 @@ func formatModes(c *common.Ctx, mode []string, files []file) {
 				}
 			}
 		}
-	} else {
+	} else if !has("-i") {
 		untouched(c, sb, files, "modified-by-check-mode:format-"+strings.TrimLeft(mode[0], "-"), d)
 	}
 	c.Outcome("format-modes:" + ov.String())
